@@ -171,11 +171,11 @@ Proof. intros x l H. inversion H; assumption. Qed.
 Lemma Forall_upd : forall {A} (P : A -> Prop) l i v, Forall P l -> P v -> Forall P (upd i v l).
 Proof.
   intros A P l. induction l as [|x l IH]; intros i v Hl Hv.
-  - destruct i; constructor.
+  - destruct i; simpl; constructor.
   - inversion Hl; subst. destruct i as [|i]; simpl; constructor; auto.
 Qed.
 
-Lemma concat_upd_add : forall ps p c x, p < length ps -> Permutation c (x :: nth p ps []) ->
+Lemma concat_upd_add : forall (ps : list (list N)) p c x, p < length ps -> Permutation c (x :: nth p ps []) ->
     Permutation (concat (upd p c ps)) (x :: concat ps).
 Proof.
   intros ps. induction ps as [|l ps IH]; intros p c x Hp Hc; simpl in Hp; [lia|].
@@ -187,7 +187,7 @@ Proof.
     + apply Permutation_sym, Permutation_middle.
 Qed.
 
-Lemma concat_upd_remove : forall ps p c x, p < length ps -> Permutation (x :: c) (nth p ps []) ->
+Lemma concat_upd_remove : forall (ps : list (list N)) p c x, p < length ps -> Permutation (x :: c) (nth p ps []) ->
     Permutation (x :: concat (upd p c ps)) (concat ps).
 Proof.
   intros ps. induction ps as [|l ps IH]; intros p c x Hp Hc; simpl in Hp; [lia|].
@@ -291,3 +291,127 @@ Proof.
   - apply ppq_inv_In; [exact Hinv|]. apply peek_In; exact Epk.
   - apply (sortedN_tail x). rewrite <- En. apply ppq_inv_nth_sorted; exact Hinv.
 Qed.
+
+(* ------------------------------------------------------------------ *)
+(* 3. peek returns the global minimum                                  *)
+(* ------------------------------------------------------------------ *)
+Lemma concat_nil_all : forall (ps : list (list N)), (forall l, In l ps -> l = []) -> concat ps = [].
+Proof.
+  intros ps. induction ps as [|l ps IH]; intro H; simpl; [reflexivity|].
+  rewrite (H l (or_introl eq_refl)). simpl. apply IH. intros l' Hl'. apply H. right; exact Hl'.
+Qed.
+
+Theorem ppq_peek_min : forall q, ppq_inv q ->
+    match ppq_peek q with
+    | Some x => In x (ppq_contents q) /\ (forall y, In y (ppq_contents q) -> (x <= y)%N)
+    | None => ppq_contents q = []
+    end.
+Proof.
+  intros q Hinv. pose proof Hinv as [HP [HO HS]].
+  unfold ppq_peek, ppq_contents.
+  destruct (heap q) as [|r rest] eqn:Eh; simpl.
+  - apply Permutation_length in HP. rewrite seq_length in HP. simpl in HP.
+    destruct (parts q); [reflexivity|simpl in HP; discriminate].
+  - assert (Hmin : forall k, k < length (parts q) -> part_lt (parts q) k r = false).
+    { intros k Hk.
+      apply (heap_root_min (part_lt (parts q)) (part_lt_swo _) (r :: rest) r rest HO eq_refl).
+      rewrite <- Eh. apply ppq_inv_In; assumption. }
+    assert (Hr : r < length (parts q)).
+    { apply ppq_inv_In; [exact Hinv|]. rewrite Eh. left; reflexivity. }
+    destruct (part_peek (parts q) r) as [x|] eqn:Er.
+    + unfold part_peek in Er.
+      destruct (nth r (parts q) []) as [|x' t] eqn:Enr; simpl in Er; [discriminate|].
+      inversion Er; subst x'. split.
+      * apply in_concat. exists (x :: t). split; [rewrite <- Enr; apply nth_In; exact Hr|left; reflexivity].
+      * intros y Hy. apply in_concat in Hy. destruct Hy as [l [Hl Hyl]].
+        assert (Hsl : sortedN l) by (rewrite Forall_forall in HS; apply HS; exact Hl).
+        apply (In_nth _ _ []) in Hl. destruct Hl as [k [Hk Ek]].
+        specialize (Hmin k Hk). unfold part_lt, part_peek in Hmin. rewrite Ek, Enr in Hmin.
+        destruct l as [|z l']; [contradiction|]. simpl in Hmin.
+        assert (Hzy : (z <= y)%N).
+        { destruct Hyl as [Hyl|Hyl]; [lia|].
+          inversion Hsl as [|z' l'' _ Hall]; subst. rewrite Forall_forall in Hall. apply Hall; exact Hyl. }
+        lia.
+    + apply concat_nil_all. intros l Hl.
+      apply (In_nth _ _ []) in Hl. destruct Hl as [k [Hk Ek]].
+      specialize (Hmin k Hk). unfold part_lt in Hmin. rewrite Er in Hmin.
+      unfold part_peek in Hmin. rewrite Ek in Hmin.
+      destruct l; [reflexivity|simpl in Hmin; discriminate].
+Qed.
+
+(* ------------------------------------------------------------------ *)
+(* 4. pop returns the global minimum and removes exactly it            *)
+(* ------------------------------------------------------------------ *)
+Theorem ppq_pop_global_min : forall q x p q', ppq_inv q -> ppq_pop q = (Some (x, p), q') ->
+    In x (ppq_contents q) /\ (forall y, In y (ppq_contents q) -> (x <= y)%N) /\
+    Permutation (ppq_contents q) (x :: ppq_contents q') /\ p < length (parts q).
+Proof.
+  intros q x p q' Hinv Hpop.
+  pose proof (ppq_peek_min q Hinv) as Hpk.
+  unfold ppq_pop in Hpop. unfold ppq_peek in Hpk.
+  destruct (peek (heap q)) as [r|] eqn:Epk; [|discriminate].
+  destruct (nth r (parts q) []) as [|x' rest] eqn:En; [discriminate|].
+  inversion Hpop; subst x' r q'; clear Hpop.
+  unfold part_peek in Hpk. rewrite En in Hpk. simpl in Hpk. destruct Hpk as [H1 H2].
+  assert (Hp : p < length (parts q)).
+  { apply ppq_inv_In; [exact Hinv|]. apply peek_In; exact Epk. }
+  split; [exact H1|split; [exact H2|split; [|exact Hp]]].
+  unfold ppq_contents. rewrite ppq_fix_parts. unfold set_part.
+  apply Permutation_sym. apply concat_upd_remove; [exact Hp|]. rewrite En. apply Permutation_refl.
+Qed.
+
+Theorem ppq_pop_none : forall q q', ppq_inv q -> ppq_pop q = (None, q') ->
+    ppq_contents q = [] /\ q' = q.
+Proof.
+  intros q q' Hinv Hpop.
+  pose proof (ppq_peek_min q Hinv) as Hpk.
+  unfold ppq_pop in Hpop. unfold ppq_peek in Hpk.
+  destruct (peek (heap q)) as [r|] eqn:Epk.
+  - destruct (nth r (parts q) []) as [|x' rest] eqn:En; [|discriminate].
+    unfold part_peek in Hpk. rewrite En in Hpk. simpl in Hpk.
+    inversion Hpop; subst. split; [exact Hpk|reflexivity].
+  - inversion Hpop; subst. split; [exact Hpk|reflexivity].
+Qed.
+
+(* ------------------------------------------------------------------ *)
+(* 5. contents after push / delete                                     *)
+(* ------------------------------------------------------------------ *)
+Theorem ppq_push_contents : forall x p q, p < length (parts q) ->
+    Permutation (ppq_contents (ppq_push x p q)) (x :: ppq_contents q).
+Proof.
+  intros x p q Hp. unfold ppq_contents, ppq_push. rewrite ppq_fix_parts. unfold set_part.
+  apply concat_upd_add; [exact Hp|]. apply ins_sorted_perm.
+Qed.
+
+Theorem ppq_delete_contents : forall x p q, p < length (parts q) -> In x (nth p (parts q) []) ->
+    Permutation (x :: ppq_contents (ppq_delete x p q)) (ppq_contents q).
+Proof.
+  intros x p q Hp Hin. unfold ppq_contents, ppq_delete. rewrite ppq_fix_parts. unfold set_part.
+  apply concat_upd_remove; [exact Hp|]. apply del_first_perm; exact Hin.
+Qed.
+
+Theorem ppq_delete_absent : forall x p q, ~ In x (nth p (parts q) []) ->
+    ppq_contents (ppq_delete x p q) = ppq_contents q.
+Proof.
+  intros x p q Hn. unfold ppq_contents, ppq_delete. rewrite ppq_fix_parts. unfold set_part.
+  rewrite del_first_absent by exact Hn. rewrite upd_nth_same. reflexivity.
+Qed.
+
+(* ------------------------------------------------------------------ *)
+(* 6. is_empty                                                         *)
+(* ------------------------------------------------------------------ *)
+Theorem ppq_is_empty_spec : forall q, ppq_inv q -> (ppq_is_empty q = true <-> ppq_contents q = []).
+Proof.
+  intros q Hinv. pose proof (ppq_peek_min q Hinv) as Hpk. unfold ppq_is_empty.
+  destruct (ppq_peek q) as [x|].
+  - destruct Hpk as [Hin _]. split; [discriminate|]. intro E. rewrite E in Hin. contradiction.
+  - split; [intros _; exact Hpk|reflexivity].
+Qed.
+
+(* audit: all exported theorems are closed *)
+Definition C19_ppq_audit :=
+  (part_lt_swo, set_part_except, ppq_fix_inv,
+   ppq_new_inv, ppq_push_inv, ppq_delete_inv, ppq_pop_inv,
+   ppq_peek_min, ppq_pop_global_min, ppq_pop_none,
+   ppq_push_contents, ppq_delete_contents, ppq_delete_absent, ppq_is_empty_spec).
+Print Assumptions C19_ppq_audit.
